@@ -71,4 +71,308 @@ C04_Permanence_Step ==
 
 C04_Permanence_Prop == [][C04_Permanence_Step]_vars
 
+
+\* ================================================================== C03
+\* Ownership safety: holdings shrink only by the owner's signature or a paid fill
+Sg == ev'.signers
+Holding(s, a, bk) == BalOf(s, a, bk).t + BalOf(s, a, bk).e
+AllAccts == {r.a : r \in st.bal} \cup {r.a : r \in st.coins}
+
+\* quantity of a's orders for batch bk filled by the (successful) BuyDirect ev'
+FilledQty(a, bk) ==
+  SumOver({i \in DOMAIN ev'.m.orders :
+             /\ HasOrder(st, ev'.m.orders[i].id)
+             /\ OrderById(st, ev'.m.orders[i].id).seller = a
+             /\ OrderById(st, ev'.m.orders[i].id).bk = bk},
+          LAMBDA i : ev'.m.orders[i].qty)
+
+C03_Credits_Step ==
+  \A r \in st.bal :
+    r.a \notin Sg =>
+      IF EvIs("BuyDirect")
+      THEN /\ BalOf(st', r.a, r.bk).t >= r.t
+           /\ BalOf(st', r.a, r.bk).e = r.e - FilledQty(r.a, r.bk)
+      ELSE IF IsBlockEv(ev')
+      THEN /\ Holding(st', r.a, r.bk) = Holding(st, r.a, r.bk)
+           /\ BalOf(st', r.a, r.bk).e <= r.e
+      ELSE /\ Holding(st', r.a, r.bk) >= Holding(st, r.a, r.bk)
+           /\ BalOf(st', r.a, r.bk).e >= r.e
+
+C03_Coins_Step ==
+  \A r \in st.coins :
+    r.a \notin Sg =>
+      \/ CoinBal(st', r.a, r.d) >= r.n
+      \/ r.a = ModFeePool /\ EvIs("GovSendFromFeePool") /\ Gov \in Sg
+
+C03_Block_Step == IsBlockEv(ev') => st'.coins = st.coins /\ st'.csupply = st.csupply
+
+C03_Credits_Prop == [][C03_Credits_Step]_vars
+C03_Coins_Prop   == [][C03_Coins_Step]_vars
+C03_Block_Prop   == [][C03_Block_Step]_vars
+
+\* ================================================================== C05
+C05_Backed ==
+  \A k \in st.baskets : CoinSupply(st, k.denom) = SumBBalBasket(st, k.id)
+
+C05_PutMints_Step ==
+  EvIs("Put") =>
+    LET m == ev'.m
+        amt == SumAmt(m.credits)
+        d == m.basket_denom
+    IN /\ CoinBal(st', m.owner, d) = CoinBal(st, m.owner, d) + amt
+       /\ CoinSupply(st', d) = CoinSupply(st, d) + amt
+       /\ ev'.resp = [amount_received |-> amt]
+       /\ HasBasket(st, d)
+       /\ SumBBalBasket(st', BasketByDenom(st, d).id)
+            = SumBBalBasket(st, BasketByDenom(st, d).id) + amt
+
+C05_TakeBurns_Step ==
+  EvIs("Take") =>
+    LET m == ev'.m
+        d == m.basket_denom
+    IN /\ CoinBal(st', m.owner, d) = CoinBal(st, m.owner, d) - m.amt
+       /\ CoinSupply(st', d) = CoinSupply(st, d) - m.amt
+       /\ "credits" \in DOMAIN ev'.resp
+       /\ SumAmt(ev'.resp.credits) = m.amt
+       /\ HasBasket(st, d)
+       /\ SumBBalBasket(st', BasketByDenom(st, d).id)
+            = SumBBalBasket(st, BasketByDenom(st, d).id) - m.amt
+
+\* basket tokens appear and disappear only through Put and Take
+C05_OnlyPutTake_Step ==
+  \A k \in st.baskets :
+    CoinSupply(st', k.denom) # CoinSupply(st, k.denom) =>
+      ev'.ok /\ ev'.type \in {"Put", "Take"} /\ ev'.m.basket_denom = k.denom
+
+C05_PutMints_Prop    == [][C05_PutMints_Step]_vars
+C05_TakeBurns_Prop   == [][C05_TakeBurns_Step]_vars
+C05_OnlyPutTake_Prop == [][C05_OnlyPutTake_Step]_vars
+
+\* ================================================================== C06
+OrderQty(s, a, bk) ==
+  SumOver({o \in s.orders : o.seller = a /\ o.bk = bk}, LAMBDA o : o.qty)
+
+C06_Escrow ==
+  /\ \A r \in st.bal : r.e = OrderQty(st, r.a, r.bk)
+  /\ \A o \in st.orders : HasBal(st, o.seller, o.bk)
+
+C06_OrderWellFormed ==
+  \A o \in st.orders :
+    /\ o.qty > 0 /\ o.ask > 0
+    /\ HasBatchKey(st, o.bk)
+    /\ HasMarketId(st, o.mid)
+
+\* the ask denom of an order written by this step was allowed in the pre-state
+C06_DenomAllowedAtWrite_Step ==
+  \A o \in st'.orders :
+    LET new     == ~HasOrder(st, o.id)
+        updated == EvIs("UpdateSellOrders") /\
+                   \E i \in DOMAIN ev'.m.updates : ev'.m.updates[i].id = o.id
+    IN /\ (new \/ updated) =>
+            HasMarketId(st', o.mid) /\ DenomAllowed(st, MarketById(st', o.mid).denom)
+       /\ (~new /\ ~updated) =>
+            \* nothing else may move an order to another market or reprice it
+            /\ o.mid = OrderById(st, o.id).mid
+            /\ o.ask = OrderById(st, o.id).ask
+
+C06_DenomAllowedAtWrite_Prop == [][C06_DenomAllowedAtWrite_Step]_vars
+
+\* ================================================================== C07
+\* BuyDirect settles exactly.  All clauses are about a successful BuyDirect ev'
+\* and are computed from the PRE-state orders, fee parameters and the request.
+BuyEntries == DOMAIN ev'.m.orders
+BuyEntry(i) == ev'.m.orders[i]
+SoldOrder(i) == OrderById(st, BuyEntry(i).id)
+BuyDenom(i) == MarketById(st, SoldOrder(i).mid).denom
+Buyer == ev'.m.buyer
+BRate == st.feeparams.buyer
+SRate == st.feeparams.seller
+\* exact cost of entry i as a fraction N(i) / D  (D = unit denominator)
+CostN(i) == BuyEntry(i).qty * st.unit.un * SoldOrder(i).ask
+CostD == st.unit.ud
+
+C07_Orders_Step ==
+  EvIs("BuyDirect") =>
+    /\ \A i \in BuyEntries :
+         /\ HasOrder(st, BuyEntry(i).id)
+         /\ HasMarketId(st, SoldOrder(i).mid)
+         /\ BuyEntry(i).bid_denom = BuyDenom(i)
+         /\ BuyEntry(i).bid_amt >= SoldOrder(i).ask
+         /\ BuyEntry(i).dar => SoldOrder(i).dar
+         /\ SoldOrder(i).seller # Buyer
+    /\ \A o \in st.orders :
+         LET q == SumOver({i \in BuyEntries : BuyEntry(i).id = o.id}, LAMBDA i : BuyEntry(i).qty) IN
+         IF q = 0 THEN o \in st'.orders
+         ELSE IF q = o.qty THEN ~HasOrder(st', o.id)
+         ELSE q < o.qty /\ HasOrder(st', o.id) /\ OrderById(st', o.id) = [o EXCEPT !.qty = @ - q]
+    /\ \A o \in st'.orders : HasOrder(st, o.id)
+
+C07_Credits_Step ==
+  EvIs("BuyDirect") =>
+    LET keys == {SoldOrder(i).bk : i \in BuyEntries}
+        got(bk, retired) == SumOver({i \in BuyEntries : SoldOrder(i).bk = bk /\ (~BuyEntry(i).dar) = retired},
+                                     LAMBDA i : BuyEntry(i).qty)
+    IN /\ \A bk \in keys :
+            /\ BalOf(st', Buyer, bk).t = BalOf(st, Buyer, bk).t + got(bk, FALSE)
+            /\ BalOf(st', Buyer, bk).r = BalOf(st, Buyer, bk).r + got(bk, TRUE)
+            /\ BalOf(st', Buyer, bk).e = BalOf(st, Buyer, bk).e
+            /\ SupplyOrZero(st', bk).t = SupplyOrZero(st, bk).t - got(bk, TRUE)
+            /\ SupplyOrZero(st', bk).r = SupplyOrZero(st, bk).r + got(bk, TRUE)
+            /\ SupplyOrZero(st', bk).c = SupplyOrZero(st, bk).c
+       /\ \A r \in st.bal :
+            LET f == IF r.a = Buyer THEN 0 ELSE FilledQty(r.a, r.bk) IN
+            (r.a # Buyer \/ r.bk \notin keys) =>
+               BalOf(st', r.a, r.bk) = [r EXCEPT !.e = @ - f]
+       /\ \A r \in st'.bal : HasBal(st, r.a, r.bk) \/ (r.a = Buyer /\ r.bk \in keys)
+
+C07_Coins_Step ==
+  EvIs("BuyDirect") =>
+    LET denoms  == {BuyDenom(i) : i \in BuyEntries}
+        sellers == {SoldOrder(i).seller : i \in BuyEntries}
+        bn == RNum(BRate)  bd == RDen(BRate)
+        sn == RNum(SRate)  sd == RDen(SRate)
+        gain(a, d) == CoinBal(st', a, d) - CoinBal(st, a, d)
+    IN \A d \in denoms :
+         LET E    == {i \in BuyEntries : BuyDenom(i) = d}
+             N    == SumOver(E, LAMBDA i : CostN(i))
+             loss == CoinBal(st, Buyer, d) - CoinBal(st', Buyer, d)
+             pool == IF d = "uregen" THEN CoinSupply(st, d) - CoinSupply(st', d)
+                     ELSE gain(ModFeePool, d)
+             sellerGain == SumOver(sellers, LAMBDA a : gain(a, d))
+         IN
+         \* each seller: quantity x ask minus the seller fee, within one unit per fill
+         /\ \A a \in sellers :
+              LET Ea == {i \in E : SoldOrder(i).seller = a}
+                  Na == SumOver(Ea, LAMBDA i : CostN(i))
+                  k  == Cardinality(Ea)
+              IN /\ gain(a, d) * CostD * sd <= Na * (sd - sn)
+                 /\ (gain(a, d) + k) * CostD * sd >= Na * (sd - sn)
+         \* fee pool (or, for uregen, the burnt supply): buyer fee + seller fee
+         /\ pool * CostD * bd * sd <= N * (bn * sd + sn * bd)
+         /\ (pool + Cardinality(E)) * CostD * bd * sd >= N * (bn * sd + sn * bd)
+         /\ (d = "uregen") => gain(ModFeePool, d) = 0
+         /\ (d # "uregen") => CoinSupply(st', d) = CoinSupply(st, d)
+         \* the buyer pays exactly what the others receive, never more than the exact total
+         /\ loss = sellerGain + pool
+         /\ loss * CostD * bd <= N * (bd + bn)
+         \* the stated max fee covers the truncated buyer fee of every fill
+         /\ \A i \in E :
+              (IF BuyEntry(i).maxfee.set THEN BuyEntry(i).maxfee.amt ELSE 0) * CostD * bd
+                 + CostD * bd > CostN(i) * bn
+              \* maxfee >= floor(fee)  <=>  maxfee + 1 > fee
+
+C07_NoOtherCoins_Step ==
+  EvIs("BuyDirect") =>
+    LET denoms  == {BuyDenom(i) : i \in BuyEntries}
+        parties == {SoldOrder(i).seller : i \in BuyEntries} \cup {Buyer, ModFeePool}
+    IN /\ \A r \in st.coins : (r.a \notin parties \/ r.d \notin denoms) => r \in st'.coins
+       /\ \A r \in st'.coins : (r.a \notin parties \/ r.d \notin denoms) => r \in st.coins
+       /\ \A r \in st.csupply : r.d \notin denoms => r \in st'.csupply
+       /\ \A r \in st'.csupply : r.d \notin denoms => r \in st.csupply
+
+C07_Orders_Prop       == [][C07_Orders_Step]_vars
+C07_Credits_Prop      == [][C07_Credits_Step]_vars
+C07_Coins_Prop        == [][C07_Coins_Step]_vars
+C07_NoOtherCoins_Prop == [][C07_NoOtherCoins_Step]_vars
+
+\* ================================================================== C11
+C11_PutOnlyIf_Step ==
+  EvIs("Put") =>
+    /\ HasBasket(st, ev'.m.basket_denom)
+    /\ \A i \in DOMAIN ev'.m.credits :
+         LET e == ev'.m.credits[i] IN
+         /\ HasBatchDenom(st, e.denom)
+         /\ BatchResolvable(st, BatchByDenom(st, e.denom))
+         /\ PutAdmissible(st, BasketByDenom(st, ev'.m.basket_denom), BatchByDenom(st, e.denom))
+
+\* the documented precondition of Put: basket exists, every entry admissible
+\* and positive, and the owner holds the (cumulated) amounts
+PrePut(s, m) ==
+  /\ Len(m.credits) > 0
+  /\ HasBasket(s, m.basket_denom)
+  /\ \A i \in DOMAIN m.credits :
+       LET e == m.credits[i] IN
+       /\ e.amt > 0
+       /\ HasBatchDenom(s, e.denom)
+       /\ BatchResolvable(s, BatchByDenom(s, e.denom))
+       /\ PutAdmissible(s, BasketByDenom(s, m.basket_denom), BatchByDenom(s, e.denom))
+       /\ BalOf(s, m.owner, BatchByDenom(s, e.denom).key).t >=
+            SumOver({j \in DOMAIN m.credits : m.credits[j].denom = e.denom},
+                    LAMBDA j : m.credits[j].amt)
+
+C11_PutIf_Step ==
+  (ev'.type = "Put" /\ ev'.dom = "spec" /\ WellFormed(ev'.m) /\ PrePut(st, ev'.m)) => ev'.ok
+
+C11_OldestFirst_Step ==
+  EvIs("Take") =>
+    LET cs  == ev'.resp.credits
+        k   == BasketByDenom(st, ev'.m.basket_denom)
+        row(d) == CHOOSE x \in st.bbal : x.bid = k.id /\ x.denom = d
+        has(d) == \E x \in st.bbal : x.bid = k.id /\ x.denom = d
+        n   == Len(cs)
+    IN /\ n > 0
+       /\ \A i \in 1..n : has(cs[i].denom) /\ cs[i].amt > 0 /\ cs[i].amt <= row(cs[i].denom).amt
+       \* oldest first along the released list
+       /\ \A i, j \in 1..n : i < j => row(cs[i].denom).start <= row(cs[j].denom).start
+       \* every batch before the last is drained completely
+       /\ \A i \in 1..(n - 1) : cs[i].amt = row(cs[i].denom).amt
+       \* nothing older than a touched batch stays behind
+       /\ \A x \in st'.bbal : \A i \in 1..n :
+            (x.bid = k.id /\ x.denom # cs[n].denom) => x.start >= row(cs[i].denom).start
+       \* the basket rows change exactly by what was released
+       /\ \A x \in st.bbal :
+            LET rel == SumOver({i \in 1..n : x.bid = k.id /\ cs[i].denom = x.denom}, LAMBDA i : cs[i].amt) IN
+            IF rel = 0 THEN x \in st'.bbal
+            ELSE IF rel = x.amt THEN ~HasBBal(st', x.bid, x.denom)
+            ELSE HasBBal(st', x.bid, x.denom) /\ BBalOf(st', x.bid, x.denom) = [x EXCEPT !.amt = @ - rel]
+
+C11_AutoRetire_Step ==
+  EvIs("Take") =>
+    LET k  == BasketByDenom(st, ev'.m.basket_denom)
+        cs == ev'.resp.credits
+        retire == ev'.m.retire
+    IN /\ (~k.dar) => retire
+       /\ \A i \in DOMAIN cs :
+            LET bk == BatchByDenom(st, cs[i].denom).key
+                got == SumOver({j \in DOMAIN cs : cs[j].denom = cs[i].denom}, LAMBDA j : cs[j].amt)
+            IN IF retire
+               THEN /\ BalOf(st', ev'.m.owner, bk).r = BalOf(st, ev'.m.owner, bk).r + got
+                    /\ BalOf(st', ev'.m.owner, bk).t = BalOf(st, ev'.m.owner, bk).t
+                    /\ SupplyOrZero(st', bk).r = SupplyOrZero(st, bk).r + got
+                    /\ SupplyOrZero(st', bk).t = SupplyOrZero(st, bk).t - got
+               ELSE /\ BalOf(st', ev'.m.owner, bk).t = BalOf(st, ev'.m.owner, bk).t + got
+                    /\ BalOf(st', ev'.m.owner, bk).r = BalOf(st, ev'.m.owner, bk).r
+                    /\ SupplyOrZero(st', bk) = SupplyOrZero(st, bk)
+
+C11_PutOnlyIf_Prop   == [][C11_PutOnlyIf_Step]_vars
+C11_PutIf_Prop       == [][C11_PutIf_Step]_vars
+C11_OldestFirst_Prop == [][C11_OldestFirst_Step]_vars
+C11_AutoRetire_Prop  == [][C11_AutoRetire_Step]_vars
+
+\* ================================================================== C12
+C12_Expiry_Step ==
+  IsBlockEv(ev') =>
+    LET T == ev'.m.t
+        gone == {o \in st.orders : o.exp.set /\ o.exp.t <= T}
+    IN /\ ev'.ok
+       /\ \A o \in st'.orders : ~o.exp.set \/ o.exp.t > T
+       /\ st'.orders = st.orders \ gone
+       /\ \A r \in st.bal :
+            LET q == SumOver({o \in gone : o.seller = r.a /\ o.bk = r.bk}, LAMBDA o : o.qty) IN
+            BalOf(st', r.a, r.bk) = [r EXCEPT !.e = @ - q, !.t = @ + q]
+       /\ \A r \in st'.bal : HasBal(st, r.a, r.bk)
+       /\ OnlyChanged({"now", "orders", "bal"})
+
+C12_NoBuyExpired_Step ==
+  EvIs("BuyDirect") =>
+    \A i \in DOMAIN ev'.m.orders :
+      HasOrder(st, ev'.m.orders[i].id) =>
+        LET o == OrderById(st, ev'.m.orders[i].id) IN ~o.exp.set \/ o.exp.t > st.now
+
+\* no open order is already expired with respect to the current block time
+C12_NoneExpired == \A o \in st.orders : ~o.exp.set \/ o.exp.t > st.now
+
+C12_Expiry_Prop       == [][C12_Expiry_Step]_vars
+C12_NoBuyExpired_Prop == [][C12_NoBuyExpired_Step]_vars
+
 =============================================================================
